@@ -1,9 +1,12 @@
 SPECIFICATION GSpec
 CONSTANTS
   Layouts = {10, 20, 30, 11, 21, 22}
+  Excs = {"hardware", "other"}
   Depth = 5
   Depth2 = 4
   Upd = {"a1", "a3", "b1", "b2"}
+  FC = {}
+  FO = {}
   UpdAny = TRUE
 CONSTRAINT Bound
 INVARIANT Emit1
